@@ -541,11 +541,16 @@ def r8_8(ctx, rc):
     needed again, so the record's arguments must stay what was claimed: one
     canonical key function (R7.3), the callee works on copies (R7.5), no
     record-owned value escapes (R11.1)."""
-    from .c07 import r7_3, r7_5
+    from .c07 import r7_3, r7_5, r7_1
     from .c11 import r11_1
     r7_3(ctx, rc)
     r7_5(ctx, rc)
     r11_1(ctx, rc)
+    # two spellings of one path are one key (R7.1), and the early duplicate
+    # test stands before anything is prepared or moved aside (R10.1)
+    r7_1(ctx, rc)
+    from .c10 import r10_1
+    r10_1(ctx, rc)
 
 
 RULES = [
